@@ -8,6 +8,7 @@
 #include <theta_union.hpp>
 #include <tuple_sketch.hpp>
 #include <tuple_union.hpp>
+#include <memory>
 
 using namespace datasketches;
 namespace vf {
@@ -16,8 +17,12 @@ using namespace c06;
 const char* property_id() { return "C06"; }
 unsigned case_timeout_s() { return 1800; }
 
-enum Fam { F_THETA_P1, F_THETA_P05, F_TUPLE, F_THETA_UNION, F_TUPLE_UNION, F_N };
-static const char* FAM_NAME[] = {"theta_p1", "theta_p05", "tuple", "theta_union", "tuple_union"};
+// *_union_mixed: an exact input of lg_k+1 holding min(n, 1.5k) keys (more than k entries in the union table) and a
+//   coarser input (lg_k-2; p = 1 in theta_union_mixed, p = 0.5 in tuple_union_mixed) over the upper half of those keys and the rest; order alternates.
+// *_reuse: the sketch (resize factor = trial mod 4) / the union object is first driven into estimation mode with 4k
+//   unrelated keys, reset(), then used.
+enum Fam { F_THETA_P1, F_THETA_P05, F_TUPLE, F_THETA_UNION, F_TUPLE_UNION, F_THETA_UNION_MIXED, F_TUPLE_UNION_MIXED, F_THETA_REUSE, F_TUPLE_REUSE, F_THETA_UNION_REUSE, F_N };
+static const char* FAM_NAME[] = {"theta_p1", "theta_p05", "tuple", "theta_union", "tuple_union", "theta_union_mixed", "tuple_union_mixed", "theta_reuse", "tuple_reuse", "theta_union_reuse"};
 
 static std::vector<Cell> build_cells(bool thorough) {
   std::vector<Cell> cells;
@@ -26,11 +31,17 @@ static std::vector<Cell> build_cells(bool thorough) {
   if (!thorough) cfgs = {{5, 300, NMULTS - 1}, {7, 300, NMULTS - 1}, {9, 200, NMULTS - 1}, {11, 200, NMULTS - 3}};
   else cfgs = {{5, 3000, NMULTS - 1}, {6, 3000, NMULTS - 1}, {7, 3000, NMULTS - 1}, {8, 3000, NMULTS - 1}, {9, 3000, NMULTS - 1},
                {10, 2000, NMULTS - 1}, {11, 1500, NMULTS - 1}, {12, 1000, NMULTS - 1}, {14, 600, NMULTS - 3}};
+  // the mixed-union and reuse families run on a thinner grid
+  std::vector<Cfg> thin;
+  if (!thorough) thin = {{7, 300, NMULTS - 1}, {10, 200, NMULTS - 3}};
+  else thin = {{6, 3000, NMULTS - 1}, {9, 3000, NMULTS - 1}, {12, 1000, NMULTS - 1}};
+  static const bool THIN_MULT[NMULTS] = {false, true, false, true, false, true, false, true, true, false, true};   // k/8, k, 3k, 8k, 16k, 64k
   for (int f = 0; f < F_N; ++f)
-    for (auto& c : cfgs)
+    for (auto& c : (f >= F_THETA_UNION_MIXED ? thin : cfgs))
       for (int mi = 0; mi <= c.max_mi; ++mi) {
+        if (f >= F_THETA_UNION_MIXED && !THIN_MULT[mi]) continue;
         Cell x; x.fam = f; x.lg_k = c.lg_k; x.mi = mi; x.trials = c.trials; x.n = cardinality(c.lg_k, mi);
-        const bool uni = (f == F_THETA_UNION || f == F_TUPLE_UNION);
+        const bool uni = (f == F_THETA_UNION || f == F_TUPLE_UNION || f >= F_THETA_UNION_MIXED);
         x.cost = static_cast<double>(x.n) * x.trials * (uni ? 1.3 : 1.0) * (f == F_TUPLE || f == F_TUPLE_UNION ? 1.2 : 1.0) + 2000.0 * x.trials;
         cells.push_back(x);
       }
@@ -42,11 +53,13 @@ static const std::vector<Cell>& cells() { static std::vector<Cell> c = build_cel
 uint64_t num_cases(bool thorough) { (void)thorough; return cells().size(); }
 void final_report() {}
 
-template<typename S> static Trial observe(const S& s, uint64_t n, const std::string& fam, const std::string& ctx) {
+template<typename S> static Trial observe(const S& s, uint64_t n, const std::string& fam, const std::string& ctx, bool must_be_exact = false) {
   Trial t;
   t.c = read_chain(s);
   check_chain(t.c, fam, ctx);
   t.exact_class = !s.is_estimation_mode();
+  // unsampled inputs within the nominal size: the count is exact
+  if (must_be_exact) VF_CHECK(t.exact_class && t.c.est == static_cast<double>(n), fam + "|n<=k-without-sampling|not-exact", ctx + " n=" + std::to_string(n) + " theta=" + str(s.get_theta()) + " " + t.c.to_string());
   if (t.exact_class) {
     VF_CHECK(t.c.est == static_cast<double>(n), fam + "|exact-mode|estimate-not-n", ctx + " n=" + std::to_string(n) + " " + t.c.to_string());
     VF_CHECK(t.c.lb[3] == t.c.est && t.c.ub[3] == t.c.est, fam + "|exact-mode|bounds-not-equal-estimate", ctx + " " + t.c.to_string());
@@ -111,6 +124,64 @@ void run_case(uint64_t idx, Rng& r) {
         const auto res = u.get_result();
         tr.push_back(observe(res, n, fam, ctx));
         { const auto res2 = u.get_result(); VF_CHECK(same_chain(read_chain(res2), tr.back().c), fam + "|get_result|second-result-differs-from-first", ctx); }
+        break;
+      }
+      case F_THETA_UNION_MIXED: case F_TUPLE_UNION_MIXED: {
+        const uint64_t kU = 1ULL << cell.lg_k;
+        const uint64_t a_cnt = std::min<uint64_t>(n, kU + kU / 2), bb = a_cnt / 2;
+        const uint8_t lgA = static_cast<uint8_t>(cell.lg_k + 1), lgB = static_cast<uint8_t>(std::max<int>(5, cell.lg_k - 2));
+        const float pB = cell.fam == F_TUPLE_UNION_MIXED ? 0.5f : 1.0f;   // fixed per family: one error law per cell
+        if (cell.fam == F_THETA_UNION_MIXED) {
+          auto a = update_theta_sketch::builder().set_lg_k(lgA).build();
+          auto b = update_theta_sketch::builder().set_lg_k(lgB).set_p(pB).build();
+          for (uint64_t i = 0; i < a_cnt; ++i) a.update(key(i));
+          for (uint64_t i = bb; i < n; ++i) b.update(key(i));
+          auto u = theta_union::builder().set_lg_k(cell.lg_k).build();
+          if (t & 1) { u.update(b.compact()); u.update(a); } else { u.update(a); u.update(b.compact((t & 2) != 0)); }
+          tr.push_back(observe(u.get_result(), n, fam, ctx));
+        } else {
+          auto a = update_tuple_sketch<double>::builder().set_lg_k(lgA).build();
+          auto b = update_tuple_sketch<double>::builder().set_lg_k(lgB).set_p(pB).build();
+          for (uint64_t i = 0; i < a_cnt; ++i) a.update(key(i), 1.0);
+          for (uint64_t i = bb; i < n; ++i) b.update(key(i), 1.0);
+          auto u = tuple_union<double>::builder().set_lg_k(cell.lg_k).build();
+          if (t & 1) { u.update(b.compact()); u.update(a); } else { u.update(a); u.update(b.compact((t & 2) != 0)); }
+          tr.push_back(observe(u.get_result(), n, fam, ctx));
+        }
+        break;
+      }
+      case F_THETA_REUSE: {
+        auto s = update_theta_sketch::builder().set_lg_k(cell.lg_k).set_resize_factor(static_cast<resize_factor>(t & 3)).build();
+        for (uint64_t j = 0; j < (4ULL << cell.lg_k); ++j) s.update(bij(~kb + j));
+        s.reset();
+        for (uint64_t i = 0; i < n; ++i) s.update(key(i));
+        tr.push_back(observe(s, n, fam, ctx + " rf=" + std::to_string(t & 3), n <= (1ULL << cell.lg_k)));
+        break;
+      }
+      case F_TUPLE_REUSE: {
+        auto s = update_tuple_sketch<double>::builder().set_lg_k(cell.lg_k).set_resize_factor(static_cast<resize_factor>(t & 3)).build();
+        for (uint64_t j = 0; j < (4ULL << cell.lg_k); ++j) s.update(bij(~kb + j), 1.0);
+        s.reset();
+        for (uint64_t i = 0; i < n; ++i) s.update(key(i), 1.0);
+        tr.push_back(observe(s, n, fam, ctx + " rf=" + std::to_string(t & 3), n <= (1ULL << cell.lg_k)));
+        break;
+      }
+      case F_THETA_UNION_REUSE: {
+        static thread_local std::unique_ptr<theta_union> persistent;     // one union object for all trials of the cell
+        if (t == 0) persistent.reset(new theta_union(theta_union::builder().set_lg_k(cell.lg_k).set_resize_factor(static_cast<resize_factor>(idx & 3)).build()));
+        theta_union& u = *persistent;
+        auto junk = update_theta_sketch::builder().set_lg_k(cell.lg_k).build();
+        for (uint64_t j = 0; j < (4ULL << cell.lg_k); ++j) junk.update(bij(~kb + j));
+        u.update(junk);
+        u.reset();
+        auto a = update_theta_sketch::builder().set_lg_k(cell.lg_k).build();
+        auto b = update_theta_sketch::builder().set_lg_k(cell.lg_k).build();
+        for (uint64_t i = 0; i < a_end; ++i) a.update(key(i));
+        for (uint64_t i = b_begin; i < n; ++i) b.update(key(i));
+        u.update(a);
+        if (t & 1) u.update(b.compact()); else u.update(b);
+        tr.push_back(observe(u.get_result(), n, fam, ctx + " union_rf=" + std::to_string(idx & 3), n <= (1ULL << cell.lg_k)));
+        if (t + 1 == cell.trials) persistent.reset();
         break;
       }
       default: break;
